@@ -32,6 +32,10 @@ var zzC19Scripts = []string{
 	"print({\"z\": 1, \"y\": [1, 2], \"x\": {\"q\": 1, \"p\": 2}}); return 1;",
 	"switch (A) { case 1, 2 { return \"low\"; } case 3 { return \"three\"; } default { return \"other\"; } }",
 	"h = {A: \"x\", B: \"y\", \"5\": \"z\"}; return string(h);",
+	// host-map members whose names differ only by the legacy prefix or by case
+	"return count;",
+	"return $count * 10 + Count;",
+	// (last: the 4-key script multiplies permutations - thorough only)
 	"h = {A: \"x\", B: \"y\", \"5\": \"z\", 2.5: \"w\"}; r = \"\"; foreach k, v in h { r = r + v; } return r;",
 }
 
@@ -45,7 +49,7 @@ type zzC19Run struct {
 	stdout string
 }
 
-func zzC19Do(sv *zzsv.T, src string, a, b int64) *zzC19Run {
+func zzC19Do(sv *zzsv.T, src string, a, b int64, hostNames bool) *zzC19Run {
 	r := &zzC19Run{fcode: map[string][]byte{}}
 	e := New(src)
 	e.AddFunction("t", func(args []object.Object) object.Object {
@@ -69,6 +73,9 @@ func zzC19Do(sv *zzsv.T, src string, a, b int64) *zzC19Run {
 		}
 	}
 	obj := map[string]interface{}{"M": map[string]interface{}{"k2": b, "k1": a, "k3": "s"}}
+	if hostNames {
+		obj = map[string]interface{}{"$count": a, "count": b + 4, "Count": 9}
+	}
 	sv.StdoutStart()
 	for i := 0; i < 2; i++ {
 		o, err := e.Execute(obj)
@@ -111,11 +118,11 @@ func ZZ_C19_MapOrder(sv *zzsv.T) {
 }
 
 func zzC19Body(sv *zzsv.T) {
-	k := sv.Choice("script", sv.Param("scripts", len(zzC19Scripts)-1, len(zzC19Scripts))) // the 4-key script multiplies permutations: thorough only
+	k := sv.Choice("script", sv.Param("scripts", len(zzC19Scripts)-1, len(zzC19Scripts)))
 	src := zzC19Scripts[k]
 	sv.Note("script", src)
 	var a, b int64
-	if k == 14 || k == 15 {
+	if k == 14 || k == 17 {
 		// integer keys of one and two digits next to string/float keys:
 		// representative pairs (symbolic keys would have to be rendered and
 		// ordered digit by digit under every permutation)
@@ -130,12 +137,12 @@ func zzC19Body(sv *zzsv.T) {
 		sv.Assume(b >= 0)
 		sv.Assume(b <= 3)
 	}
-	sv.Region("duplicate_key_in_literal", k == 5 || k == 6 || ((k == 7 || k == 14 || k == 15) && a == b))
+	sv.Region("duplicate_key_in_literal", k == 5 || k == 6 || ((k == 7 || k == 14 || k == 17) && a == b))
 	sv.Region("keys_printing_alike", k == 3 || k == 4)
 	sv.MapOrderNondet(false)
-	r1 := zzC19Do(sv, src, a, b) // reference: insertion order everywhere
+	r1 := zzC19Do(sv, src, a, b, k == 15 || k == 16) // reference: insertion order everywhere
 	sv.MapOrderNondet(true)
-	r2 := zzC19Do(sv, src, a, b) // every map iteration permuted
+	r2 := zzC19Do(sv, src, a, b, k == 15 || k == 16) // every map iteration permuted
 	sv.MapOrderNondet(false)
 	sv.Assert("C19.prepare_agrees", (r1 == nil) == (r2 == nil))
 	if r1 == nil || r2 == nil {
